@@ -179,6 +179,8 @@ run_directed = directed.run
 
 def cases(tier, rng):
     thorough = tier == "thorough"
+    for c in directed.odd_exception_classes_cases():
+        yield "directed-odd-exception-classes", c
     for c in directed.cancelled_in_body_cases():
         yield "directed-cancelled-in-body", c
     for a in (False, True):
